@@ -190,7 +190,7 @@ impl Var {
 //@ as: fn set_var_stabilise_end(&mut self, t: &mut State)
 //@ cells: value_set_during_stabilisation
 //@ rule R5: `self.set_var_while_not_stabilising(v);` => `self.set_var_while_not_stabilising(v, t);` x1
-//@ props: C08
+//@ props: C08 C06
 //@ contract:
 //@|     requires old(self).node is Some, old(t).num_var_sets < usize::MAX,
 //@|     ensures
